@@ -98,6 +98,15 @@ KANI_UNITS = {
         ],
         "module": "kani_decode_total",
     },
+    "skip_shapes": {
+        "crate": "minicbor",
+        "src": "units/kani/minicbor/skip_shapes.rs",
+        "inject": [
+            {"copy": ("units/kani/minicbor/skip_shapes.rs", "minicbor/src/kani_skip_shapes.rs")},
+            {"append": ("minicbor/src/lib.rs", "#[cfg(kani)] mod kani_skip_shapes;")},
+        ],
+        "module": "kani_skip_shapes",
+    },
     "roundtrip": {
         "crate": "minicbor",
         "src": "units/kani/minicbor/roundtrip.rs",
@@ -130,5 +139,11 @@ def kani_harnesses():
         hs = kani_run.discover(os.path.join(VERIF, u["src"]), uname, u.get("module", ""))
         out.extend(hs)
     return out
+
+# properties whose quantifier ranges over feature configurations: every harness serving them runs in each
+PROP_CONFIGS = {
+    "C06": {"quick": ["", "alloc"], "thorough": ["", "alloc"]},
+    "C20": {"quick": ["", "std"], "thorough": ["", "alloc", "std"]},
+}
 
 ALL_PROPS = ["C%02d" % i for i in range(1, 21)]
